@@ -2,9 +2,11 @@
 The JSON text round trip: `parseJson (render j) = some j` for every value whose object
 member names are pairwise distinct at every level.  No condition on characters is needed:
 every `Char` (Unicode scalar value) survives `escChar` / `parseStrBody`, including the
-`\uXXXX` forms and the surrogate pairs of code points ≥ 65536.
+`\uXXXX` forms and the surrogate pairs of code points ≥ 65536.  The last section shows that
+printed text passes the leading-zero screen of `States.StringToJson` (`leadingZero`).
 -/
 import AslModel.JsonText
+import AslModel.Intrinsic
 namespace Asl
 
 /-! ### hexadecimal -/
@@ -624,5 +626,171 @@ example : parseJson (render (.obj [("a".toList, .num 1), ("a".toList, .num 2)]))
 /-- characters of every escape class, a surrogate pair included -/
 example : Json.wf (.obj [("k\"\\\n".toList, .arr [.str "é\x7f\x08😀 /".toList, .num (-12), .null]),
     ("".toList, .obj [])]) = true := by decide
+
+/-! ### the leading-zero screen of `States.StringToJson` passes printed text -/
+
+theorem lz_str_plain (c : Char) (q : Bool) (rest : Str) (h1 : c ≠ '\\') (h2 : c ≠ '"') :
+    leadingZero true false q (c :: rest) = leadingZero true false false rest := by
+  simp [leadingZero, h1, h2]
+
+theorem lz_str_esc (e : Char) (q : Bool) (rest : Str) :
+    leadingZero true false q ('\\' :: e :: rest) = leadingZero true false false rest := by
+  simp [leadingZero]
+
+theorem lz_hex4 (n : Nat) (q : Bool) (rest : Str) :
+    leadingZero true false q (hex4 n ++ rest) = leadingZero true false false rest := by
+  have h1 := hexDigit_ne (n / 4096 % 16) (Nat.mod_lt _ (by decide))
+  have h2 := hexDigit_ne (n / 256 % 16) (Nat.mod_lt _ (by decide))
+  have h3 := hexDigit_ne (n / 16 % 16) (Nat.mod_lt _ (by decide))
+  have h4 := hexDigit_ne (n % 16) (Nat.mod_lt _ (by decide))
+  simp only [hex4, List.cons_append, List.nil_append]
+  rw [lz_str_plain _ _ _ h1.2 h1.1, lz_str_plain _ _ _ h2.2 h2.1, lz_str_plain _ _ _ h3.2 h3.1,
+    lz_str_plain _ _ _ h4.2 h4.1]
+
+theorem lz_escChar (c : Char) (q : Bool) (rest : Str) :
+    leadingZero true false q (escChar c ++ rest) = leadingZero true false false rest := by
+  unfold escChar
+  split
+  · exact lz_str_esc _ _ _
+  split
+  · exact lz_str_esc _ _ _
+  split
+  · exact lz_str_esc _ _ _
+  split
+  · exact lz_str_esc _ _ _
+  split
+  · exact lz_str_esc _ _ _
+  split
+  · exact lz_str_esc _ _ _
+  split
+  · exact lz_str_esc _ _ _
+  split
+  · rename_i h1 h2 _ _ _ _ _ _
+    exact lz_str_plain c q rest h2 h1
+  split
+  · simp only [List.cons_append]
+    rw [lz_str_esc, lz_hex4]
+  · simp only [List.cons_append, List.append_assoc]
+    rw [lz_str_esc, lz_hex4, lz_str_esc, lz_hex4]
+
+theorem lz_escBody (s : Str) (q : Bool) (rest : Str) :
+    leadingZero true false q (escBody s ++ '"' :: rest) = leadingZero false false false rest := by
+  induction s generalizing q with
+  | nil => simp [escBody, leadingZero]
+  | cons c cs ih => simp only [escBody, List.append_assoc]; rw [lz_escChar, ih]
+
+theorem lz_quote (s : Str) (p : Bool) (rest : Str) :
+    leadingZero false false p (quote s ++ rest) = leadingZero false false false rest := by
+  have : quote s ++ rest = '"' :: (escBody s ++ '"' :: rest) := by simp [quote]
+  rw [this]
+  simp [leadingZero, lz_escBody]
+
+/-- digits after a digit never trip the screen -/
+theorem lz_digits (ds rest : Str) (hd : ∀ c ∈ ds, c.isDigit = true) :
+    leadingZero false false true (ds ++ rest) = leadingZero false false true rest := by
+  induction ds with
+  | nil => rfl
+  | cons d ds ih =>
+    have h1 : d.isDigit = true := hd d (by simp)
+    have h2 : d ≠ '"' := by intro e; subst e; exact absurd h1 (by decide)
+    simp only [List.cons_append, leadingZero, h2, if_false, Bool.not_true, Bool.and_false,
+      Bool.false_and, h1, Bool.true_or]
+    exact ih (fun c hc => hd c (by simp [hc]))
+
+/-- the leading digit of a number ≥ 10 (indeed ≥ 1) is not `0` -/
+theorem toDigits_head_ne_zero (n : Nat) (h : 0 < n) :
+    ∃ d tl, Nat.toDigits 10 n = d :: tl ∧ d ≠ '0' := by
+  induction n using Nat.strongRecOn with
+  | _ n ih =>
+    by_cases hn : n < 10
+    · refine ⟨n.digitChar, [], Nat.toDigits_of_lt_base hn, ?_⟩
+      match n, h, hn with
+      | 1, _, _ | 2, _, _ | 3, _, _ | 4, _, _ | 5, _, _ | 6, _, _ | 7, _, _ | 8, _, _
+      | 9, _, _ => decide
+      | n + 10, _, hn => omega
+    · obtain ⟨d, tl, hd, hz⟩ := ih (n / 10) (by omega) (by omega)
+      exact ⟨d, tl ++ [Nat.digitChar (n % 10)],
+        by rw [Nat.toDigits_of_base_le (by decide) (by omega), hd]; rfl, hz⟩
+
+/-- what follows a value inside printed text: nothing, or `,` `]` `}` -/
+def FollowOk (rest : Str) : Prop :=
+  rest = [] ∨ ∃ r, rest = ',' :: r ∨ rest = ']' :: r ∨ rest = '}' :: r
+
+theorem FollowOk.lz {rest : Str} (h : FollowOk rest) (q : Bool) :
+    leadingZero false false q rest = leadingZero false false false rest := by
+  rcases h with h | ⟨r, h | h | h⟩ <;> subst h <;> simp [leadingZero]
+
+theorem lz_toDigits (n : Nat) (rest : Str) (hr : FollowOk rest) :
+    leadingZero false false false (Nat.toDigits 10 n ++ rest) =
+      leadingZero false false false rest := by
+  have hd : ∀ c ∈ Nat.toDigits 10 n, c.isDigit = true :=
+    fun c hc => Nat.isDigit_of_mem_toDigits (by decide) (by decide) hc
+  by_cases hn : n = 0
+  · subst hn
+    rw [Nat.toDigits_zero]
+    rcases hr with h | ⟨r, h | h | h⟩ <;> subst h <;> simp [leadingZero]
+  · obtain ⟨d, tl, hds, hz⟩ := toDigits_head_ne_zero n (by omega)
+    rw [hds] at hd ⊢
+    have h1 : d.isDigit = true := hd d (by simp)
+    have h2 : d ≠ '"' := by intro e; subst e; exact absurd h1 (by decide)
+    simp only [List.cons_append, leadingZero, h2, hz, if_false, decide_false, Bool.false_and, h1,
+      Bool.true_or]
+    rw [lz_digits tl rest (fun c hc => hd c (by simp [hc])), hr.lz]
+    simp
+
+theorem lz_intText (n : Int) (rest : Str) (hr : FollowOk rest) :
+    leadingZero false false false (intText n ++ rest) = leadingZero false false false rest := by
+  by_cases hn : 0 ≤ n
+  · rw [intText_nonneg n hn, lz_toDigits _ _ hr]
+  · rw [intText_neg n hn]
+    simp only [List.cons_append, leadingZero]
+    simpa using lz_toDigits _ _ hr
+
+mutual
+theorem lz_render : (j : Json) → (rest : Str) → FollowOk rest →
+    leadingZero false false false (render j ++ rest) = leadingZero false false false rest
+  | .null, rest, _ => by simp [render, leadingZero]
+  | .bool true, rest, _ => by simp [render, leadingZero]
+  | .bool false, rest, _ => by simp [render, leadingZero]
+  | .num n, rest, hr => by simpa [render] using lz_intText n rest hr
+  | .str s, rest, _ => by simpa [render] using lz_quote s false rest
+  | .arr xs, rest, _ => by
+    have := lz_renderL xs rest
+    simpa [render, leadingZero] using this
+  | .obj kvs, rest, _ => by
+    have := lz_renderM kvs rest
+    simpa [render, leadingZero] using this
+theorem lz_renderL : (xs : List Json) → (rest : Str) →
+    leadingZero false false false (renderL xs ++ ']' :: rest) = leadingZero false false false rest
+  | [], rest => by simp [renderL, leadingZero]
+  | [x], rest => by
+    rw [renderL, lz_render x _ (Or.inr ⟨rest, Or.inr (Or.inl rfl)⟩)]
+    simp [leadingZero]
+  | x :: y :: r, rest => by
+    have := lz_renderL (y :: r) rest
+    simp only [renderL, List.append_assoc, List.cons_append]
+    rw [lz_render x _ (Or.inr ⟨_, Or.inl rfl⟩)]
+    simpa [leadingZero] using this
+theorem lz_renderM : (kvs : List (Str × Json)) → (rest : Str) →
+    leadingZero false false false (renderM kvs ++ '}' :: rest) = leadingZero false false false rest
+  | [], rest => by simp [renderM, leadingZero]
+  | [(k, v)], rest => by
+    simp only [renderM, List.append_assoc, List.cons_append]
+    rw [lz_quote]
+    have := lz_render v ('}' :: rest) (Or.inr ⟨rest, Or.inr (Or.inr rfl)⟩)
+    simpa [leadingZero] using this
+  | (k, v) :: y :: r, rest => by
+    have ih := lz_renderM (y :: r) rest
+    simp only [renderM, List.append_assoc, List.cons_append]
+    rw [lz_quote]
+    have := lz_render v (',' :: ' ' :: (renderM (y :: r) ++ '}' :: rest)) (Or.inr ⟨_, Or.inl rfl⟩)
+    simp only [leadingZero] at this ⊢
+    simpa [leadingZero, ih] using this
+end
+
+/-- printed text never has a number with a leading zero -/
+theorem leadingZero_render (j : Json) : leadingZero false false false (render j) = false := by
+  have := lz_render j [] (Or.inl rfl)
+  simpa [leadingZero] using this
 
 end Asl
